@@ -35,8 +35,8 @@ Laws == /\ NoDotSegments(T.path)
         /\ (T.path # <<>> => T.path[1] = SL)                                     \* stays rooted under the authority
         /\ RemoveDotSegments(T.path) = T.path                                    \* normalizing again changes nothing
         /\ (R.scheme = <<>> => T.scheme = B.scheme /\ T.auth = B.auth)
-Emit == PrintT(<<"T", ToJson([base |-> Recompose(B), ref |-> Recompose(R), target |-> Recompose(T),
-                             ref2 |-> Recompose(R2), target2 |-> Recompose(Resolve(T, R2)),
+Emit == PrintT(<<"T", ToJson([base |-> Written(B), ref |-> Written(R), target |-> Recompose(T),
+                             ref2 |-> Written(R2), target2 |-> Recompose(Resolve(T, R2)),
                              rq |-> IF R.query = << <<>> >> THEN 1 ELSE 0, rf |-> IF R.frag = << <<>> >> THEN 1 ELSE 0])>>)
 (* RFC 3986 section 5.4 examples (base http://a/b/c/d;p?q), a few, as a sanity anchor of the transcription *)
 RFCBase == [scheme |-> <<Scheme>>, auth |-> << <<a>> >>, path |-> <<SL, b, SL, 99, SL, 100, 59, 112>>, query |-> << <<113>> >>, frag |-> <<>>]
